@@ -121,6 +121,8 @@ func c09Replay(w *mc.W, data json.RawMessage) error {
 		st.resolveOne(cs.Blend[0], cs.Blend[1], cs.Blend[2], cs.Ctx)
 	case "decoder":
 		st.decodeStream(bytesCase{Hex: cs.Hex}.bytes(), "decoder")
+	case "palette-stream":
+		st.paletteStream(bytesCase{Hex: cs.Hex}.bytes())
 	case "palette":
 		pal := ivg.DefaultPalette
 		for i, c := range cs.Pal {
@@ -598,6 +600,13 @@ func (st *c09State) palettes(u int) {
 			}
 		}
 	default:
+		// decoder side: every one-byte entry after, and before, a direct non-black one (an entry
+		// that is a palette / register reference is opaque black whatever earlier entries hold)
+		for x := 0; x < 256; x++ {
+			st.paletteStream([]byte{0x01, 0x63, byte(x)})
+			st.paletteStream([]byte{0x01, byte(x), 0x18})
+			st.paletteStream([]byte{0x02, 0x30, 0x7c, byte(x)})
+		}
 		for x := 0; x < 65536; x++ {
 			c := ref.Color2(byte(x>>8), byte(x)).D
 			if !ref.Premul(c) {
@@ -611,6 +620,33 @@ func (st *c09State) palettes(u int) {
 			st.palette(&pal)
 		}
 	}
+}
+
+// paletteStream decodes a hand-made palette chunk body and compares with the reference tables.
+func (st *c09State) paletteStream(body []byte) {
+	w := st.w
+	w.EvalN(1)
+	b := append(append([]byte{}, gen.Magic...), 0x02, byte(2*(1+len(body))), 0x02)
+	b = append(b, body...)
+	cs := c09Case{Route: "palette-stream", Hex: fmt.Sprintf("%x", body)}
+	var ps ref.Parser
+	var rd rec.Dest
+	p := ps.Parse(b)
+	err, pnc, _ := safeDecode(&rd, b)
+	if pnc != nil || (err == nil) != p.OK || (err == nil && (len(rd.Calls) != 1 || rd.Calls[0].Pal == nil || *rd.Calls[0].Pal != p.Pal)) {
+		w.Fail("palette-stream:table", fmt.Sprintf("metadata %x: Decode err=%v panic=%v palette head %v; specification: ok=%v palette head %v", b, err, pnc, palHead(rd.Calls), p.OK, p.Pal[:3]), cs)
+	}
+	h := mc.NewHasher()
+	h.Str("palette-stream")
+	h.Byte(body[len(body)-1] >> 6)
+	w.Outcome(h.Sum(), true)
+}
+
+func palHead(calls []rec.Call) any {
+	if len(calls) == 0 || calls[0].Pal == nil {
+		return nil
+	}
+	return calls[0].Pal[:3]
 }
 
 // palette writes the suggested palette next to the default viewBox (palette chunk only) and
